@@ -154,6 +154,9 @@ Definition first_fail (fin : Z) (T : list block) (V : list (N * N * N)) (order :
 
 (** ---- narrow signatures of the open findings ---- *)
 
+(** the id of the empty parent hash (C27.Model.empty_par) *)
+Definition sp_empty_par : N := 1000002.
+
 (** proper ancestors of [h] by header links (fuel = |T|) *)
 Fixpoint ancestors (fuel : nat) (T : list block) (h : N) : list N :=
   match fuel with
@@ -236,5 +239,29 @@ Definition kf_code (fin : Z) (T : list block) (V : list (N * N * N)) (order : li
           then 2%N else 0%N
       | _, _ => 0%N
       end
+  | FPanic k =>
+      (* finding 5: the delivered block has an empty ParentHash *)
+      match nth_error order k with
+      | Some i => match find_hdr (shash i) T with
+                  | Some b => if N.eqb (bpar b) sp_empty_par then 5%N else 0%N
+                  | None => 0%N
+                  end
+      | None => 0%N
+      end
   | _ => 0%N
   end.
+
+(** ---- the signature stage alone (case [CSig]) ----
+    [bsig]: no block signature or it verifies; [txs]: (transaction, its
+    signature verifies); [after]: class of the first failing check after the
+    signature stage; observed: error code, "the tip moved".  A block that is
+    not valid must be refused and leave the tip where it was - whatever the
+    receiver's mempool holds. *)
+Definition sig_spec_ok (bsig : bool) (txs : list (N * bool)) (after ec : N) (moved : bool) : bool :=
+  if bsig && forallb snd txs && N.eqb after 0 then true
+  else negb moved && negb (N.eqb ec 0).
+
+(** finding 6: the only failing signatures are those of transactions whose
+    hashes the receiver's mempool holds *)
+Definition sig_kf (bsig : bool) (txs : list (N * bool)) (pool : list N) (after : N) : N :=
+  if bsig && N.eqb after 0 && forallb (fun t => snd t || memN (fst t) pool) txs then 6%N else 0%N.
